@@ -11,23 +11,7 @@ def fmt_seq(seq):
     return ', '.join('%s%s' % (s, '(encoding=..)' if d else '()') for s, d in seq)
 
 
-def run(P, rep, tier):
-    rep.explanation = (
-        'R1 compares the folded transition table with the specification relation (81 pairs) and then checks, by '
-        'exhaustive abstract execution of the writer over every call history its own validator accepts (K1), that from '
-        'every reachable writer state each public call is accepted exactly when the id it would write may follow the '
-        'previous id, and that a rejection for order raises DiffXSectionOrderError. R2 is a typestate rule '
-        '(CLEAN -> DIRTY at the first stream write / stack mutation / attribute store on the writer): from every reachable '
-        'state every public call is executed with fully abstract, caller-controlled arguments and no raise source '
-        '(explicit raise, or sink-table operation on caller data) may be reached in DIRTY state. R3: every operation on '
-        'the writer\'s stream is write(). R4: arguments that reach the header must be None, a member of a folded choice '
-        'set, or an integer computed by the writer.')
-    rep.undecided = 'byte-level content of what is appended (C02); behaviour of the stream object itself'
-    rep.trusted_base += ['sink table of sa/calls.py', 'CPython argument binding', 'specification relation (sa/roles.py)']
-    table = P.fold_module_const('pydiffx.sections', 'VALID_SECTION_STATES')
-    r1t = rep.rule('C09-R1a', 'transition table shared with the reader equals the specification relation', reference=81)
-    req, perm = check_table(P, rep, r1t, table, 'VALID_SECTION_STATES')
-
+def explore_writer(P, tier):
     WK = k1.WriterK1(P)
     cls = WK.cls
     for name, _ in WK.CALLS:
@@ -52,6 +36,27 @@ def run(P, rep, tier):
     from sa.par import pmap
     collected = list(zip(tasks, pmap(k1._run_one, tasks)))
     WK.transitions += len(tasks)
+    return WK, cls, seen, problems, collected
+
+
+def run(P, rep, tier):
+    rep.explanation = (
+        'R1 compares the folded transition table with the specification relation (81 pairs) and then checks, by '
+        'exhaustive abstract execution of the writer over every call history its own validator accepts (K1), that from '
+        'every reachable writer state each public call is accepted exactly when the id it would write may follow the '
+        'previous id, and that a rejection for order raises DiffXSectionOrderError. R2 is a typestate rule '
+        '(CLEAN -> DIRTY at the first stream write / stack mutation / attribute store on the writer): from every reachable '
+        'state every public call is executed with fully abstract, caller-controlled arguments and no raise source '
+        '(explicit raise, or sink-table operation on caller data) may be reached in DIRTY state. R3: every operation on '
+        'the writer\'s stream is write(). R4: arguments that reach the header must be None, a member of a folded choice '
+        'set, or an integer computed by the writer.')
+    rep.undecided = 'byte-level content of what is appended (C02); behaviour of the stream object itself'
+    rep.trusted_base += ['sink table of sa/calls.py', 'CPython argument binding', 'specification relation (sa/roles.py)']
+    table = P.fold_module_const('pydiffx.sections', 'VALID_SECTION_STATES')
+    r1t = rep.rule('C09-R1a', 'transition table shared with the reader equals the specification relation', reference=81)
+    req, perm = check_table(P, rep, r1t, table, 'VALID_SECTION_STATES')
+
+    WK, cls, seen, problems, collected = explore_writer(P, tier)
     rep.extra['writer_states'] = len(seen)
     rep.extra['call_histories_executed'] = WK.transitions
     from sa.roles import closure
